@@ -93,6 +93,13 @@ func runOne10(i int, cfg *Config, seed int64) (obs Obs10) {
 		extFac[id.Type()] = w.extensionFactory(x)
 		svcExts = append(svcExts, id)
 	}
+	// an extension may be listed more than once in service::extensions (nothing rejects that): it is still ONE component,
+	// started and stopped once, in dependency order (seeded change C10-6 gave every list entry a node of its own)
+	if len(svcExts) > 0 && rng.Intn(4) == 0 {
+		dup := svcExts[rng.Intn(len(svcExts))]
+		at := rng.Intn(len(svcExts) + 1)
+		svcExts = append(svcExts[:at], append(extensions.Config{dup}, svcExts[at:]...)...)
+	}
 	ctx := context.Background()
 	set := service.Settings{
 		BuildInfo:           component.NewDefaultBuildInfo(),
